@@ -10,6 +10,17 @@ For a source automaton X (DFA or NFA, non-empty language):
       implementation chose) is evaluated on the same source; its expression AST is matched (proved
       derivative matcher) against the source on all words up to length K - this must agree, it is what
       the theorems say - and against the NFA compiled from s (differences only counted as structural).
+  (4) the string-level mirror model (Model/GNFAStr.v, wire ops 3/4): the source is sent with its rows in the
+      iteration order of the implementation's own dicts, together with the iteration order of the candidate
+      dict of every _find_min_connected_node call (recorded by re-evaluating the helper's own set expression on
+      the same objects). Compared: the sequence of ripped states (the model's degree rule must pick the same
+      state; otherwise counted as structural and the model is re-run along the implementation's order) and the
+      returned STRING, literally. The model's own string is also run through the model of the library's parser
+      and compiler and compared with the source by the proved comparator (what C12_dfa_to_regex /
+      C12_nfa_to_regex state; a failure there is a defect of the model). A literal difference of the strings is
+      a correspondence failure: the implementation's string is then judged by the model parser + comparator;
+      a violation only when it is rejected or denotes another language, otherwise counted in
+      structural_differences.
 """
 from __future__ import annotations
 
@@ -18,6 +29,7 @@ import itertools
 import enc
 import gen
 from props.common import load_def, mk_dfa, mk_nfa, outcome
+from props import regex_common as rc
 from automata.fa.dfa import DFA
 from automata.fa.gnfa import GNFA
 from automata.fa.nfa import NFA
@@ -26,7 +38,9 @@ RULE = ("valid DFAs and NFAs with non-empty language, 1-5 states, alphabets of 1
         "with parallel and cyclic empty-string edges, empty-string paths that bypass a state next to a parallel symbol "
         "edge, states without a row, final initial state; a hand-written corpus runs first. Per case: to_regex() must "
         "return a string, the library's parser must accept it, and the compiled NFA must have exactly the source's "
-        "language (proved comparator, all words). distinct = canonical source automaton; non-trivial = at least 2 "
+        "language (proved comparator, all words); the string is also compared literally with the string-level mirror "
+        "model run under the recorded candidate orders (and the sequence of ripped states with the model's). "
+        "distinct = canonical source automaton; non-trivial = at least 2 "
         "states and (for NFAs) an empty-string edge or a nondeterministic choice, (for DFAs) a cycle or >= 3 states")
 
 K = 5  # word length bound of the AST-level cross checks
@@ -36,6 +50,7 @@ IMPL_CAP = 60  # informational model-vs-compiled-expression check only for compi
 # ---------------------------------------------------------------------------------------------
 # observing the rip order (the only thing to_regex leaves open): wrap the selection helper
 _ORDER = []
+_SCHED = []  # per call: the iteration order of the candidates (the dict _find_min_connected_node builds), or None
 
 
 def _install_recorder():
@@ -45,6 +60,14 @@ def _install_recorder():
     fn = raw.__func__ if isinstance(raw, staticmethod) else raw
 
     def rec(*a, **kw):
+        try:
+            # the same set expression the helper evaluates on the same objects: same iteration order
+            states = kw["states"] if "states" in kw else a[0]
+            ini = kw["initial_state"] if "initial_state" in kw else a[2]
+            fin = kw["final_state"] if "final_state" in kw else a[3]
+            _SCHED.append(list(states - {ini, fin}))
+        except Exception:
+            _SCHED.append(None)
         q = fn(*a, **kw)
         _ORDER.append(q)
         return q
@@ -58,6 +81,52 @@ _install_recorder()
 
 
 # ---------------------------------------------------------------------------------------------
+# the string-level mirror model (coq/Model/GNFAStr.v, wire ops 3/4)
+STR_FULL_CAP = 160  # the model's own parser + compiler + comparator run on the model's string up to this length
+
+
+def enc_ordered(src, kind, st):
+    """The source with its rows in the iteration order of the implementation's own dicts (from_dfa / from_nfa
+    merge parallel edges in that order) and the character codes of the regex model as symbols.
+    None when a symbol is not a single character the regex model has a code for."""
+    try:
+        if any(len(a) != 1 for a in src.input_symbols):
+            return None
+        syms = sorted(rc.code(a) for a in src.input_symbols)
+        rows = []
+        for q, row in src.transitions.items():
+            if kind == "dfa":
+                rows.append([st(q), [[rc.code(a), st(t)] for a, t in row.items()]])
+            else:
+                rows.append([st(q), [[0 if a == "" else rc.code(a) + 1, [st(t) for t in ts]] for a, ts in row.items()]])
+    except (ValueError, KeyError):
+        return None
+    out = [sorted(st(q) for q in src.states), syms, rows, st(src.initial_state), sorted(st(q) for q in src.final_states)]
+    if kind == "dfa":
+        out.append(bool(src.allow_partial))
+    return out
+
+
+def unchars(cs):
+    inv = {v: k for k, v in rc.FIXED.items() if k not in "\r\x0b\x0c"}
+    return "".join(inv[c] if c in inv else (str(c - 16) if 16 <= c <= 25 else rc.POOL[c - 26]) for c in cs)
+
+
+def str_check_problems(chk, what):
+    """chk = [model parser verdict, res (distinguishing word?)] as answered by ops 3/4."""
+    out = []
+    if not chk:
+        return out
+    pv, dv = enc.dec_res(chk[0]), enc.dec_res(chk[1])
+    if pv[0] != "ok":
+        out.append(f"the model of the library's parser rejects {what} (error code {pv[1]})")
+    elif dv[0] != "ok":
+        out.append(f"the model compiler / comparator did not return on {what}: {dv}")
+    elif dv[1]:
+        out.append(f"{what} does not denote the source's language: word codes {dv[1][0]}")
+    return out
+
+
 def nonempty_def(kind, d):
     """Is some final state reachable? (plain graph search on the definition)"""
     seen, todo = {d["initial_state"]}, [d["initial_state"]]
@@ -102,11 +171,15 @@ def check(ctx, kind, sdef, tag):
 
     # --- implementation
     del _ORDER[:]
+    del _SCHED[:]
     r = outcome(lambda: (GNFA.from_dfa(src) if kind == "dfa" else GNFA.from_nfa(src)).to_regex())
     order = list(_ORDER)
+    sched_seen = list(_SCHED)
+    order_observed = True
     if set(order) != set(src.states) or len(order) != len(src.states):
         order = sorted(src.states, key=enc.sort_key)
         ctx.tally("rip_order_not_observed")
+        order_observed = False
     worder = [st(q) for q in order]
     problems, s, rx, conf = [], None, None, None
     if r[0] != "ok":
@@ -168,6 +241,65 @@ def check(ctx, kind, sdef, tag):
     if d_impl:
         ctx.structural += 1
     ctx.tally("model_ast_size_" + ("<50" if size < 50 else "<500" if size < 500 else ">=500"))
+
+    # --- the string-level mirror model: the implementation's string literally, with the candidate orders it used
+    tord = enc_ordered(src, kind, st)
+    if tord is None:
+        ctx.tally("string_model_skipped_symbol_without_code")
+    elif r[0] != "ok" or not (s is None or isinstance(s, str)):
+        ctx.tally("string_model_skipped_no_string")
+    else:
+        op = 3 if kind == "dfa" else 4
+        full = 1 if (s is not None and len(s) <= STR_FULL_CAP) else 0
+        if order_observed and len(sched_seen) == len(order) and all(c is not None for c in sched_seen):
+            sched, forced = [[st(q) for q in cand] for cand in sched_seen], 0
+        else:
+            # fall back: rip along the order used for the AST model, without the degree rule (mode 2/3)
+            sched, forced = [[q] for q in worder], 2
+            ctx.tally("string_model_schedule_from_rip_order")
+        (ans,) = ctx.driver.batch([(12, op, enc.tree([tord, sched, full + forced, []]))])
+        mres = enc.dec_res(ans[0]) if ans != [0, 99] and len(ans) == 3 else ("bad", ans)
+        if mres[0] != "ok":
+            ctx.violation(f"string model did not return a result: {mres}", dict(replay, correspondence="C12/string-model"),
+                          confirmed=False)
+        else:
+            mstr_codes, morder = mres[1]
+            mstr = unchars(mstr_codes[0]) if mstr_codes else None
+            if order_observed and morder != worder:
+                # the degree rule of the model picked another state: the model is wrong or the code changed
+                ctx.tally("string_model_rip_order_differs")
+                ctx.structural += 1
+                (ans2,) = ctx.driver.batch([(12, op, enc.tree([tord, [[q] for q in worder], full + 2, []]))])
+                m2 = enc.dec_res(ans2[0])
+                if m2[0] == "ok":
+                    ans = ans2
+                    mstr_codes, morder = m2[1]
+                    mstr = unchars(mstr_codes[0]) if mstr_codes else None
+            else:
+                ctx.tally("string_model_rip_order_equal")
+            for pr in str_check_problems(ans[1], f"the model's string {mstr!r}"):
+                # what the theorems exclude: a failure here is a defect of the model or of a proof
+                ctx.violation("string model: " + pr, dict(replay, correspondence="C12/string-model-self"), confirmed=False)
+            if ans[1]:
+                ctx.tally("string_model_string_parsed_compiled_compared_by_model")
+            if mstr == s:
+                ctx.tally("string_literally_equal")
+            else:
+                ctx.tally("string_differs_from_model")
+                # correspondence failure: judge the implementation's string with the model's parser and comparator
+                sem = []
+                if s is not None:
+                    try:
+                        (ans3,) = ctx.driver.batch([(12, op, enc.tree([tord, sched, 0, [rc.chars(s)]]))])
+                        sem = str_check_problems(ans3[2], f"the implementation's string {s!r}")
+                    except (ValueError, KeyError):
+                        sem = []
+                if (s is None) != (mstr is None):
+                    sem.append(f"to_regex() returned {s!r}, the string model {mstr!r}")
+                if sem:
+                    problems.extend(f"(string model {mstr!r}) " + x for x in sem)
+                else:
+                    ctx.structural += 1   # same language, accepted by the parser: a literal difference only
 
     ctx.case((kind, enc.tree(tsrc)), nontrivial,
              sample={"kind": kind, "source": repr(sdef), "regex": s, "rip_order": [repr(q) for q in order],
